@@ -78,6 +78,11 @@ def probeJ (ntasks npaths : Nat) (s : St) (spec : Json) : Json :=
                   ("removes", ofNats (cmd.removes s)),
                   ("ambiguous", Json.bool (Driver.Status.ambiguousAt s t)),
                   ("db", dbJ ntasks npaths (cmd.exec s))])),
+    ("opensDb", Json.mkObj [
+      ("list -s", Json.bool (Cmd.list true []).opensDb), ("list", Json.bool (Cmd.list false []).opensDb),
+      ("info", Json.bool (Cmd.info 0 false).opensDb), ("info --no-status", Json.bool (Cmd.info 0 true).opensDb),
+      ("clean", Json.bool (Cmd.clean true false []).opensDb), ("help", Json.bool Cmd.help.opensDb),
+      ("dumpdb", Json.bool Cmd.dumpdb.opensDb), ("tabcompletion", Json.bool Cmd.tabcompletion.opensDb)]),
     ("cleanDry", Json.mkObj [
       ("removes", ofNats ((Cmd.clean true true (List.range ntasks)).removes s)),
       ("db", dbJ ntasks npaths ((Cmd.clean true true (List.range ntasks)).exec s))])]
